@@ -34,7 +34,7 @@ def generate(st):
     cfg = {
         'n_dates': sw.choice([17, 20, 30, 40, 60] + ([120] if getattr(st, 'deep', False) else [])) if big else sw.choice([1, 2, 3, 3, 4, 5, 6, 8]),
         'n_ops': sw.choice([4, 6, 8, 10, 12]) if big else sw.choice([5, 8, 10, 14, 18, 24] + ([40] if getattr(st, 'deep', False) else [])),
-        'values': sorted(sw.sample([1.0, 2.0, 3.0, 4.0, 7.5], sw.randint(2, 4))),
+        'values': sorted(sw.sample([1.0, 2.0, 3.0, 4.0, 7.5], sw.randint(2, 4)) + ([1.0000001, 1.0000002] if sw.random() < 0.25 else [])),      # revisions may be tiny
         'p_nan': sw.choice([0.0, 0.1, 0.3, 0.5]),
         'p_partial': sw.choice([0.0, 0.3, 0.6]),
         'ticks': sorted(set(sw.sample(TICKS, sw.randint(2, len(TICKS))))),
